@@ -133,6 +133,36 @@ theorem tail_cpToTT_go (ms : Tensor R) : ∀ (p : Nat) (is : List Nat) (a : Nat)
         apply Finset.sum_congr rfl; intro b hb
         rw [ih _ is b h3 (by simpa using Finset.mem_range.mp hb)]
 
+theorem dense_sumCols (c : Core R) (U : Option (Fac R)) (is : List Nat) :
+    dense [(TMode.mk c.sumCols U).toMode] is = dense [(TMode.mk c U).toMode] is := by
+  cases c with
+  | tt => rfl
+  | cp s r f =>
+    cases is with
+    | nil => simp [dense, tail, sumTo_eq]
+    | cons i is =>
+      cases U with
+      | none =>
+        simp only [Core.sumCols, dense, tail, sumTo_eq, TMode.toMode_rl, TMode.toMode_rr, TMode.toMode_G, TMode.decomp_none,
+          Core.tt_rl, Core.tt_rr, Core.cp_rl, Core.cp_rr, Core.tt_get, Core.cp_get, Finset.sum_range_one, mul_one]
+        apply Finset.sum_congr rfl; intro a ha
+        rw [Finset.sum_eq_single a]
+        · simp
+        · intro b _ hb; simp [Ne.symm hb]
+        · intro hh; exact absurd ha hh
+      | some U =>
+        simp only [Core.sumCols, dense, tail, sumTo_eq, TMode.toMode_rl, TMode.toMode_rr, TMode.toMode_G, TMode.decomp_some,
+          Fac.apply, Core.tt_rl, Core.tt_rr, Core.cp_rl, Core.cp_rr, Core.tt_get, Core.cp_get, Finset.sum_range_one, mul_one,
+          Finset.mul_sum]
+        have hR : ∀ a ∈ range r, (∑ b ∈ range r, if a = b then ∑ j ∈ range s, U.f i j * f j a else 0) =
+            ∑ j ∈ range s, U.f i j * f j a := by
+          intro a ha
+          rw [Finset.sum_eq_single a]
+          · simp
+          · intro b _ hb; simp [Ne.symm hb]
+          · intro hh; exact absurd ha hh
+        rw [Finset.sum_congr rfl hR, Finset.sum_comm]
+
 /-- whole-tensor CP→TT conversion does not change the tensor -/
 theorem dense_cpToTTAll (t : Tensor R) (ht : t.WF) (is : List Nat) :
     dense (cpToTTAll t).modes is = dense t.modes is := by
@@ -142,7 +172,7 @@ theorem dense_cpToTTAll (t : Tensor R) (ht : t.WF) (is : List Nat) :
     obtain ⟨c, U⟩ := m
     obtain ⟨_, h2, h3⟩ := ht
     cases ms with
-    | nil => simpa [cpToTTAll, Tensor.modes] using dense_lift1 c U [] is
+    | nil => simpa [cpToTTAll, Tensor.modes] using dense_sumCols c U is
     | cons y ys =>
       simp only [cpToTTAll, Tensor.modes, List.map_cons]
       rw [dense_lift1]
